@@ -360,6 +360,12 @@ class UpdateCollection(Message):
             # MP withdraws
             mp_withdraws.setdefault(nlri.family().afi_safi(), []).append(nlri)
 
+        # Withdraws left out of this batch must not leave an empty UPDATE behind either:
+        # without attributes it is byte for byte the IPv4 unicast End-of-RIB marker
+        if not include_withdraw:
+            v4_withdraws = []
+            mp_withdraws = {}
+
         # Check if we have anything to send
         has_v4 = v4_announces or v4_withdraws
         has_mp = mp_announces or mp_withdraws
